@@ -1,6 +1,7 @@
 package main
 
 import (
+	"context"
 	"encoding/json"
 	"fmt"
 	"os"
@@ -23,14 +24,42 @@ type history struct {
 	Stack  Stack       `json:"stack"`
 	Stream string      `json:"stream"` // main | illformed
 	Ops    []memsim.Op `json:"ops"`
+	// Backend: the registry behind the stack and the one called directly: "" = ocimem,
+	// "algstore" = algstore.go (blobs under sha256 / sha384 / sha512 digests).
+	Backend string `json:"backend,omitempty"`
+	// Passes: for a Repositories / Tags / Referrers operation (by index in Ops), how the iterator
+	// VALUE the call returns is iterated, on both sides: one number per pass, 0 = a complete
+	// pass, k > 0 = the caller's yield function returns false at its k-th call.  The last pass
+	// is complete.  No entry = one complete pass.
+	Passes map[int][]int `json:"passes,omitempty"`
+	// Big: not a history but one push of a large content (big.go).
+	Big *bigCase `json:"big,omitempty"`
 }
 
+// prePass is a pass the caller stopped, recorded with the complete pass that follows it.
+type prePass struct {
+	K      int           `json:"k"`
+	Direct memsim.Result `json:"direct"`
+	Via    memsim.Result `json:"via"`
+	Stat   int           `json:"via_status,omitempty"`
+	Trace  []BCall       `json:"trace"`
+}
+
+func (p prePass) Coq() string {
+	return fmt.Sprintf("{| pp_k := %d; pp_direct := %s; pp_via := %s; pp_vstat := %s; pp_trace := %s |}",
+		p.K, p.Direct.Coq(), p.Via.Coq(), hx.Z(int64(p.Stat)), bcallsCoq(p.Trace))
+}
+
+// stepRec is one entry of the case's history: an operation, or a further complete pass over the
+// iterator of the listing operation before it (Again).
 type stepRec struct {
 	Op     memsim.Op     `json:"op"`
 	Direct memsim.Result `json:"direct"`
 	Via    memsim.Result `json:"via"`
 	Stat   int           `json:"via_status,omitempty"` // status of the HTTPError in the stack's error (0: none)
 	Trace  []BCall       `json:"trace"`
+	Again  bool          `json:"again,omitempty"`
+	Pre    []prePass     `json:"stopped_passes,omitempty"`
 }
 
 type snapRec struct {
@@ -119,10 +148,94 @@ func isWriterOp(k string) bool {
 	return false
 }
 
+func newBackend(kind string) ociregistry.Interface {
+	switch kind {
+	case "":
+		return ocimem.New()
+	case "algstore":
+		return newAlgStore()
+	}
+	panic("unknown backend " + kind)
+}
+
+func isIterOp(k string) bool { return k == "Repositories" || k == "Tags" || k == "Referrers" }
+
+// iterValue is the iterator a listing call returned, to be iterated any number of times.
+type iterValue func(stopAt int) memsim.Result
+
+// callIter makes the listing call and returns its iterator; stopAt > 0: the yield function
+// returns false at its stopAt-th call (and goes on recording whatever it is handed after that).
+func callIter(reg ociregistry.Interface, o memsim.Op) iterValue {
+	ctx := context.Background()
+	strs := func(seq ociregistry.Seq[string]) iterValue {
+		return func(stopAt int) memsim.Result {
+			res := memsim.Result{Kind: "list", List: []string{}}
+			n := 0
+			seq(func(s string, err error) bool {
+				n++
+				if err != nil {
+					if res.IterErrCode == nil {
+						c := memsim.ErrCode(err)
+						res.IterErrCode = &c
+						res.Msg = err.Error()
+					}
+					return false
+				}
+				res.List = append(res.List, s)
+				return stopAt == 0 || n < stopAt
+			})
+			return res
+		}
+	}
+	switch o.Kind {
+	case "Repositories":
+		return strs(reg.Repositories(ctx, o.Start))
+	case "Tags":
+		return strs(reg.Tags(ctx, o.Repo, o.Start))
+	case "Referrers":
+		seq := reg.Referrers(ctx, o.Repo, ociregistry.Digest(o.Digest), o.Art)
+		return func(stopAt int) memsim.Result {
+			res := memsim.Result{Kind: "descs", Descs: []memsim.Desc{}}
+			n := 0
+			seq(func(d ociregistry.Descriptor, err error) bool {
+				n++
+				if err != nil {
+					if res.IterErrCode == nil {
+						c := memsim.ErrCode(err)
+						res.IterErrCode = &c
+						res.Msg = err.Error()
+					}
+					return false
+				}
+				res.Descs = append(res.Descs, memsim.Desc{Media: d.MediaType, Digest: string(d.Digest), Size: d.Size})
+				return stopAt == 0 || n < stopAt
+			})
+			return res
+		}
+	}
+	panic("not a listing operation: " + o.Kind)
+}
+
+func guarded(f func() memsim.Result) (res memsim.Result) {
+	if panicked, pv := hx.Recover(func() { res = f() }); panicked {
+		return memsim.Result{Kind: "panic", Msg: pv}
+	}
+	return res
+}
+
+// passPlan: the passes of operation i, the last one complete.
+func (h history) passPlan(i int) []int {
+	p := h.Passes[i]
+	if len(p) == 0 || p[len(p)-1] != 0 {
+		p = append(append([]int{}, p...), 0)
+	}
+	return p
+}
+
 func execHistory(h history) runResult {
-	a := ocimem.New()
+	a := newBackend(h.Backend)
 	exA := memsim.NewExec(a, true)
-	st := build(h.Stack)
+	st := build(h.Stack, newBackend(h.Backend))
 	defer st.Close()
 	exB := memsim.NewExec(st.reg, false)
 	or := memsim.NewOracles()
@@ -132,10 +245,46 @@ func execHistory(h history) runResult {
 	var res runResult
 	res.orc = &orcC03{or}
 	res.stack = true
-	for _, o := range h.Ops {
+	for i, o := range h.Ops {
 		or.Observe(o)
 		if o.Kind == "WCommit" {
 			or.Content(written[o.W])
+		}
+		if isIterOp(o.Kind) {
+			// the call, then the passes over the iterator value it returned, on both sides
+			var itA, itB iterValue
+			if r := guarded(func() memsim.Result { itA = callIter(a, o); return memsim.Result{} }); r.Kind == "panic" {
+				itA = func(int) memsim.Result { return r }
+			}
+			if r := guarded(func() memsim.Result { itB = callIter(st.reg, o); return memsim.Result{} }); r.Kind == "panic" {
+				itB = func(int) memsim.Result { return r }
+			}
+			var pending []prePass
+			again := false
+			for _, k := range h.passPlan(i) {
+				rA := guarded(func() memsim.Result { return itA(k) })
+				rB := guarded(func() memsim.Result { return itB(k) })
+				stat := st.spy.takeStatus()
+				st.quiesce()
+				var tr []BCall
+				if o.Kind != "Referrers" || k == 0 {
+					// client.Referrers sends its request when it is called: whatever the backend was
+					// asked belongs to the operation, not to one of the passes
+					tr = st.rec.take()
+				}
+				for _, c := range tr {
+					if c.Kind == "op" {
+						or.Observe(*c.Op)
+					}
+				}
+				if k > 0 {
+					pending = append(pending, prePass{K: k, Direct: rA, Via: rB, Stat: stat, Trace: tr})
+					continue
+				}
+				res.steps = append(res.steps, stepRec{Op: o, Direct: rA, Via: rB, Stat: stat, Trace: tr, Again: again, Pre: pending})
+				pending, again = nil, true
+			}
+			continue
 		}
 		rA := exA.Run(o)
 		ob := o
@@ -177,7 +326,7 @@ func execHistory(h history) runResult {
 		res.steps = append(res.steps, stepRec{Op: o, Direct: rA, Via: rB, Stat: stat, Trace: tr})
 	}
 	// the state both registries end in
-	for _, so := range snapshotOps(h.Ops, res.steps) {
+	for _, so := range snapshotOps(res.steps) {
 		or.Observe(so)
 		ra := memsim.NewExec(a, true).Run(so)
 		rb := memsim.NewExec(st.mem, true).Run(so)
@@ -194,7 +343,7 @@ func execHistory(h history) runResult {
 // snapshotOps lists what is read off both registries after the history: the catalogue, the
 // tags of every repository mentioned, every tag mentioned or listed, every blob and manifest
 // digest mentioned (per repository it was mentioned with, and every repository for mounts).
-func snapshotOps(ops []memsim.Op, steps []stepRec) []memsim.Op {
+func snapshotOps(steps []stepRec) []memsim.Op {
 	repos := map[string]bool{}
 	type rd struct{ r, d string }
 	digs := map[rd]bool{}
@@ -204,7 +353,8 @@ func snapshotOps(ops []memsim.Op, steps []stepRec) []memsim.Op {
 			digs[rd{r, d}] = true
 		}
 	}
-	for i, o := range ops {
+	for i := range steps {
+		o := steps[i].Op
 		for _, r := range []string{o.Repo, o.From} {
 			if r != "" {
 				repos[r] = true
@@ -265,8 +415,13 @@ func bcallsCoq(cs []BCall) string {
 }
 
 func (r runResult) coq(h history, strict bool) string {
-	var ops, dir, via, trs, snaps, stats []string
+	var ops, dir, via, trs, snaps, stats, pres []string
 	for _, s := range r.steps {
+		var pp []string
+		for _, p := range s.Pre {
+			pp = append(pp, p.Coq())
+		}
+		pres = append(pres, hx.List(pp))
 		stats = append(stats, hx.Z(int64(s.Stat)))
 		ops = append(ops, s.Op.Coq())
 		dir = append(dir, s.Direct.Coq())
@@ -276,9 +431,13 @@ func (r runResult) coq(h history, strict bool) string {
 	for _, s := range r.snap {
 		snaps = append(snaps, fmt.Sprintf("(%s, %s, %s)", s.Op.Coq(), s.A.Coq(), s.B.Coq()))
 	}
-	return fmt.Sprintf("{| c_cfg := %s; c_main := %s; c_strict := %s; c_orc := %s; c_ops := %s; c_direct := %s; c_via := %s; c_trace := %s; c_snap := %s; c_more := %s; c_bufsz := %d; c_vstat := %s; c_stack := %s |}",
-		h.Stack.Coq(), hx.Bool(h.Stream == "main"), hx.Bool(strict), r.orc.Coq(), hx.List(ops), hx.List(dir), hx.List(via), hx.List(trs), hx.List(snaps),
-		r.orc.moreCoq(), r.bufSize(), hx.List(stats), hx.Bool(r.stack))
+	form := "CHist"
+	if h.Backend != "" {
+		form = "CFree"
+	}
+	return fmt.Sprintf("%s {| c_cfg := %s; c_main := %s; c_strict := %s; c_orc := %s; c_ops := %s; c_direct := %s; c_via := %s; c_trace := %s; c_snap := %s; c_more := %s; c_bufsz := %d; c_vstat := %s; c_stack := %s; c_pre := %s |}",
+		form, h.Stack.Coq(), hx.Bool(h.Stream == "main"), hx.Bool(strict), r.orc.Coq(), hx.List(ops), hx.List(dir), hx.List(via), hx.List(trs), hx.List(snaps),
+		r.orc.moreCoq(), r.bufSize(), hx.List(stats), hx.Bool(r.stack && h.Backend == ""), hx.List(pres))
 }
 
 // ---- exploration aid (C03_DEBUG=1): differences seen on the Go side, never the verdict ----
